@@ -881,6 +881,23 @@ def rule_tables(ctx):
     ctx.ob("tables", f, 1, "sub_algorithm_threshold has %d entries" % len(thr), "one threshold per accepted precision (%d)" % nrows, len(thr) == nrows)
     ctx.ob("tables", f, 1, "raw_estimate has %d rows" % len(raw), "one raw-estimate row per accepted precision", len(raw) == nrows)
     ctx.ob("tables", f, 1, "bias_data has %d rows" % len(bias), "one bias row per accepted precision", len(bias) == nrows)
+    # the numeric content equals the published tables (digests pinned in sa/hll_published.json; layout, comments and number spelling
+    # are irrelevant, any changed value is a different estimator)
+    import hashlib
+    import json
+    import os
+    with open(os.path.join(os.path.dirname(os.path.abspath(__file__)), "hll_published.json")) as fh:
+        pub = json.load(fh)
+
+    def dig(row):
+        return hashlib.sha256(",".join(repr(float(x)) for x in row).encode()).hexdigest()[:24]
+    ctx.ob("tables", f, 1, "sub_algorithm_threshold values", "the linear-counting thresholds are the published ones", dig(thr) == pub["sub_algorithm_threshold"],
+           "" if dig(thr) == pub["sub_algorithm_threshold"] else "the threshold table differs from the published values")
+    for name, tab in (("raw_estimate", raw), ("bias_data", bias)):
+        for i, row in enumerate(tab[:nrows]):
+            okk = i < len(pub[name]) and dig(row) == pub[name][i]
+            ctx.ob("tables", f, 1, "%s row p=%d values" % (name, P_MIN + i), "the %s row is the published one" % name, okk,
+                   "" if okk else "%s[p=%d] differs from the published table: the bias correction interpolates other values" % (name, P_MIN + i))
     for i in range(min(len(raw), len(bias), len(thr), nrows)):
         p = P_MIN + i
         r, b = raw[i], bias[i]
